@@ -8,6 +8,10 @@ TB = ("Trusted: Lean 4.33 kernel; python translator (refuses unknown syntax; val
       "{propext, Classical.choice, Quot.sound}; no sorry/native_decide. ")
 
 CLAIMS = {
+ "C17": ("proof",
+  "For any coordinate type and candidate function: generate_connectivty yields the perception of the current coordinates whatever the record held; symbols -> set_coordinates -> generate_connectivty equals the file constructor's molecule field for field; for EVERY call history ending in generate_connectivty (resp. a successful set_bond_orders m) the connectivity is the perception of the current coordinates (resp. exactly what m specifies) — nothing stale survives; wrong-length coordinate lists are refused with the state unchanged; build_3d refuses multi-atom molecules without bonds; a model without the clear is refuted by a two-call witness. The model reproduces the wrapper's full state after every call of random call sequences.",
+  TB + "Modelled: wrapper methods (corresponded on call sequences through the hook). File text handling is C13/C14.",
+  "Lean 4 proof (state machine, all call histories) + op-sequence correspondence through the wrapper hook", "DESIGN.md §5 C17"),
  "C20": ("proof",
   "All 118 elements: symbol/number bijection, period, IUPAC group, main-group flag, Cordero radii, lookup defaults — proved by kernel evaluation (decide +kernel) over the whole finite domain on tables regenerated from /repo each run; hand-modelled lookup functions tied by exhaustive correspondence (Z=0..130, all symbols).",
   TB + "Hand-transcribed reference data (IUPAC symbols, Cordero 2008) is an oracle.",
